@@ -135,5 +135,12 @@ Definition dispatch (cmd : sx) : sx :=
       | Some sc' => L [x_bool (solvable sc'); x_list x_action (plan sc'); x_bool (wf_scenario sc')]
       | None => bad
       end
+  | L [I 16; nhs] =>
+      (* the deterministic skeleton of a generated scenario for each number of hosts *)
+      match d_list d_nat nhs with
+      | Some l => x_list (fun nh => let sn := gen_subnets nh in
+                                    L [x_list x_nat sn; x_list (x_list x_bool) (gen_topology (length sn))]) l
+      | None => bad
+      end
   | _ => bad
   end.
